@@ -1,7 +1,13 @@
-(* Props/C17.v — iterators: the unary iterator of BitVector (next / skip1 / skip0) and the
-   index-based iterators with their size hints (pinned statements only). *)
-From Sucds Require Import Base.Res Spec.BitSpec Spec.SeqSpec Model.BitVector Model.Unary
-  Proofs.BVAbs Proofs.UnaryIter Proofs.UnarySkip Proofs.IterGeneric.
+(* Props/C17.v — iterators: the unary iterator of BitVector (next / skip1 / skip0), the
+   index-based iterators with their size hints (BitVector, CompactVector, DacsByte, DacsOpt,
+   PrefixSummedEliasFano, WaveletMatrix) and the Elias-Fano iterator (pinned statements only;
+   proofs in Proofs/UnaryIter.v, UnarySkip.v, IterGeneric.v, EFIter.v and Integration2.v). *)
+From Sucds Require Import Base.Res Spec.BitSpec Spec.SeqSpec Spec.DacSpec
+  Model.BitVector Model.Unary Model.DArray Model.EliasFano Model.CompactVector Model.Dacs
+  Model.Psef Model.Wavelet
+  Proofs.BVAbs Proofs.IndexSpecs Proofs.UnaryIter Proofs.UnarySkip Proofs.IterGeneric
+  Proofs.EFRep Proofs.EFIter Proofs.EFBuilder Proofs.CVRep Proofs.SALemmas Proofs.PSMain
+  Proofs.Integration2.
 Open Scope N_scope.
 
 (* ---------- UnaryIter: new + next ---------- *)
@@ -157,6 +163,132 @@ Theorem C17_size_hint : forall c len pos, pos <= len ->
 Proof. exact size_hint_ok. Qed.
 Print Assumptions C17_size_hint.
 
+(* ---------- the other index-based iterators ----------
+   Each statement: for the structure x built over the input xs (or representing xs), in every
+   configuration c,
+     iter_ok (nth_opt xs) (lenN xs) (<structure>_iter_next c x) (iter_size_hint c (lenN xs))
+   i.e. (C17_iter_ok_unfold) j calls of next() from the start return the first min(j, len)
+   elements and then None's, the position never exceeds len, the size hint after j calls is
+   exactly (len - pos, Some (len - pos)), and exactly that many elements are still to come.
+   The hypotheses are those of the access theorem of the structure. *)
+
+Theorem C17_iter_ok_unfold : forall (A : Type) (acc : N -> option A) (len : N)
+    (next : N -> res (N * option A)) (hint : N -> res (N * N)),
+  iter_ok acc len next hint <->
+  forall j : nat,
+    let pj := N.min (N.of_nat j) len in
+    mrun next j 0 = Ok (pj, map acc (nseq pj) ++ repeat None (j - N.to_nat len)) /\
+    pj <= len /\
+    hint pj = Ok (len - pj, len - pj) /\
+    forall n : nat,
+      mrun next n pj = Ok (N.min (pj + N.of_nat n) len,
+                           map acc (nrange pj (Nat.min n (N.to_nat (len - pj))))
+                           ++ repeat None (n - N.to_nat (len - pj))).
+Proof. exact (fun A acc len next hint => iff_refl _). Qed.
+Print Assumptions C17_iter_ok_unfold.
+
+(* for sequences of integers: n >= len calls of next() return exactly the input, then None's *)
+Theorem C17_iter_all : forall (xs : list N) next hint,
+  iter_ok (nth_opt xs) (lenN xs) next hint ->
+  forall n : nat, lenN xs <= N.of_nat n ->
+  mrun next n 0 = Ok (lenN xs, map Some xs ++ repeat None (n - length xs)).
+Proof. exact iter_ok_all. Qed.
+Print Assumptions C17_iter_all.
+
+(* CompactVector::iter(): on any vector representing xs (C09: cv_rep, within the memory bound),
+   in particular on the result of from_slice *)
+Theorem C17_compactvector_iter : forall c v xs, cv_rep v xs -> lenN xs * cv_width v < 2 ^ 56 ->
+  iter_ok (nth_opt xs) (lenN xs) (cv_iter_next c v) (iter_size_hint c (lenN xs)).
+Proof. exact cv_iter_ok. Qed.
+Print Assumptions C17_compactvector_iter.
+
+Theorem C17_compactvector_iter_from_slice : forall c0 l v, l <> [] -> Forall (fun x => x < W) l ->
+  lenN l * bitlen (max_list l) < 2 ^ 56 -> cv_from_slice c0 l = Ok (Some v) ->
+  forall c, iter_ok (nth_opt l) (lenN l) (cv_iter_next c v) (iter_size_hint c (lenN l)).
+Proof. exact cv_iter_ok_from_slice. Qed.
+Print Assumptions C17_compactvector_iter_from_slice.
+
+(* the same obtained from the access theorem alone through C17_index_iter_from_access
+   (cv_iter_next c v pos is by definition index_next c (cv_access c v) (cv_len v) pos) *)
+Theorem C17_compactvector_iter_from_access : forall c v xs, cv_rep v xs ->
+  lenN xs * cv_width v < 2 ^ 56 ->
+  iter_ok (nth_opt xs) (lenN xs) (index_next c (cv_access c v) (cv_len v))
+          (iter_size_hint c (lenN xs)).
+Proof. exact cv_iter_ok_from_access. Qed.
+Print Assumptions C17_compactvector_iter_from_access.
+
+(* DacsByte::iter() on the value returned by from_slice (C11) *)
+Theorem C17_dacsbyte_iter : forall vals c0 d, Forall (fun x => x < W) vals -> lenN vals < 2 ^ 50 ->
+  db_from_slice c0 vals = Ok d ->
+  forall c, iter_ok (nth_opt vals) (lenN vals) (db_iter_next c d) (iter_size_hint c (lenN vals)).
+Proof. exact dacsbyte_iter_ok. Qed.
+Print Assumptions C17_dacsbyte_iter.
+
+(* DacsOpt::iter() on the value returned by from_slice, max_levels in 1..=64 or None (C10) *)
+Theorem C17_dacsopt_iter : forall vals mlo c0 d, Forall (fun x => x < W) vals -> lenN vals < 2 ^ 50 ->
+  1 <= match mlo with Some m => m | None => 64 end <= 64 ->
+  do_from_slice c0 vals mlo = Ok (Some d) ->
+  forall c, iter_ok (nth_opt vals) (lenN vals) (do_iter_next c d) (iter_size_hint c (lenN vals)).
+Proof. exact dacsopt_iter_ok. Qed.
+Print Assumptions C17_dacsopt_iter.
+
+(* PrefixSummedEliasFano::iter(): on any value representing vals (C12: ps_rep), and on the value
+   returned by from_slice (capacity of the Elias-Fano layer as in Props/C12.v; it follows for
+   fewer than 2^50 values) *)
+Theorem C17_psef_iter_rep : forall p vals, ps_rep p vals -> forall c, lenN vals < 2 ^ 56 ->
+  iter_ok (nth_opt vals) (lenN vals) (ps_iter_next c p) (iter_size_hint c (lenN vals)).
+Proof. exact ps_iter_ok. Qed.
+Print Assumptions C17_psef_iter_rep.
+
+Theorem C17_psef_iter : forall vals c0 p, vals <> [] -> sum_list vals + 1 < W ->
+  lenN vals + 2 + (sum_list vals + 1) / 2 ^ low_len_of (sum_list vals + 1) (lenN vals) < 2 ^ 56 /\
+  lenN vals * low_len_of (sum_list vals + 1) (lenN vals) < 2 ^ 56 ->
+  ps_from_slice c0 vals = Ok (Some p) ->
+  forall c, iter_ok (nth_opt vals) (lenN vals) (ps_iter_next c p) (iter_size_hint c (lenN vals)).
+Proof. exact psef_iter_ok. Qed.
+Print Assumptions C17_psef_iter.
+
+Theorem C17_psef_iter_small : forall vals c0 p, vals <> [] -> sum_list vals + 1 < W ->
+  lenN vals < 2 ^ 50 -> ps_from_slice c0 vals = Ok (Some p) ->
+  forall c, iter_ok (nth_opt vals) (lenN vals) (ps_iter_next c p) (iter_size_hint c (lenN vals)).
+Proof. exact psef_iter_ok_small. Qed.
+Print Assumptions C17_psef_iter_small.
+
+(* WaveletMatrix::iter() over any of the three backings k, on the value returned by new (C05) *)
+Theorem C17_wavelet_iter : forall c0 k s wm,
+  s <> [] /\ max_list s + 1 < W /\ lenN s < 2 ^ 50 -> wm_new c0 k s = Ok (Some wm) ->
+  forall c, iter_ok (nth_opt s) (lenN s) (wm_iter_next c wm) (iter_size_hint c (lenN s)).
+Proof. exact wm_iter_ok. Qed.
+Print Assumptions C17_wavelet_iter.
+
+(* ---------- the Elias-Fano iterator (not index-based: a unary iterator over the high part and
+   a buffered reader of the low part) ----------
+   iter(k) followed by n calls of next() (efi_run, Proofs/EFIter.v) returns
+   iter_outputs xs k n = the first n elements of SeqSpec.ef_iter xs k (the elements from index k
+   on; nothing if k >= len), then None forever: on any value representing xs (C04: ef_rep), and
+   on the value built from a non-decreasing sequence by the builder (C16) *)
+Theorem C17_eliasfano_iter : forall e xs u, ef_rep e xs u ->
+  forall c k n, exists it it', efi_new c e k = Ok it /\
+    efi_run c e n it = Ok (it', iter_outputs xs k n).
+Proof. exact efi_spec. Qed.
+Print Assumptions C17_eliasfano_iter.
+
+Theorem C17_eliasfano_iter_outputs : forall xs k n,
+  iter_outputs xs k n
+  = map Some (firstn n (SeqSpec.ef_iter xs k)) ++ repeat None (n - length (SeqSpec.ef_iter xs k)).
+Proof. exact (fun xs k n => eq_refl). Qed.
+Print Assumptions C17_eliasfano_iter_outputs.
+
+Theorem C17_eliasfano_iter_built : forall u m xs, u < W -> 1 <= m -> lenN xs <= m ->
+  m + 2 + u / 2 ^ low_len_of u m < 2 ^ 56 -> m * low_len_of u m < 2 ^ 56 ->
+  nondec xs -> Forall (fun x => x < u) xs ->
+  forall c0 b0 b e, efb_new c0 u m = Ok (Some b0) -> efb_extend c0 b0 xs = Ok (b, true) ->
+  efb_build c0 b = Ok e ->
+  forall c k n, exists it it', efi_new c e k = Ok it /\
+    efi_run c e n it = Ok (it', iter_outputs xs k n).
+Proof. exact efi_spec_built. Qed.
+Print Assumptions C17_eliasfano_iter_built.
+
 (* ---------- a concrete vector: 150 bits in 3 words (42 padding bits) ---------- *)
 
 Example C17_example_mixed_skips :
@@ -178,3 +310,23 @@ Example C17_example_next :
     = Ok (it, [Some 140; Some 142; Some 144; Some 145; Some 146; Some 147; Some 148; Some 149;
                None; None; None; None]).
 Proof. cbv zeta. intros [|] [|]; eexists; vm_compute; reflexivity. Qed.
+
+(* ---------- the index-based iterators of five structures built over the same eight values, in
+   both build profiles: 10 calls of next() return the values in order, then None twice; the size
+   hint after the 3rd call is (5, Some 5) ---------- *)
+Definition c17_index_iters (c : cfg) (xs : list N) (n : nat) :=
+  ov <- cv_from_slice c xs ;; v <- unwrap ov ;;
+  db <- db_from_slice c xs ;;
+  od <- do_from_slice c xs (Some 3) ;; d <- unwrap od ;;
+  op <- ps_from_slice c xs ;; p <- unwrap op ;;
+  ow <- wm_new c KRank9 xs ;; w <- unwrap ow ;;
+  r1 <- mrun (cv_iter_next c v) n 0 ;; r2 <- mrun (db_iter_next c db) n 0 ;;
+  r3 <- mrun (do_iter_next c d) n 0 ;; r4 <- mrun (ps_iter_next c p) n 0 ;;
+  r5 <- mrun (wm_iter_next c w) n 0 ;;
+  h <- iter_size_hint c (lenN xs) 3 ;;
+  Ok (snd r1, snd r2, snd r3, snd r4, snd r5, h).
+Example C17_example_index_iters :
+  let xs := [3; 1; 4; 1; 5; 9; 2; 6] in
+  let out := [Some 3; Some 1; Some 4; Some 1; Some 5; Some 9; Some 2; Some 6; None; None] in
+  forall d i, c17_index_iters {| dbg := d; intr := i |} xs 10 = Ok (out, out, out, out, out, (5, 5)).
+Proof. cbv zeta. intros [|] [|]; vm_compute; reflexivity. Qed.
